@@ -76,9 +76,10 @@ def run(repo: Repo, tier: str) -> Report:
         for name, ds in sc.scalars.items():
             incs = [d for d in ds if d.aug]
             for d in incs:
-                if list(d.guards) == [gt] and (d.rhs - Rat.atom(name)).equals(Rat.const(1)):
+                from ..symb import minimal_guards
+                if minimal_guards(d.guards) == [gt] and (d.rhs - Rat.atom(name)).equals(Rat.const(1)):
                     P = name
-                if list(d.guards) == [lt] and (d.rhs - Rat.atom(name)).equals(Rat.const(1)):
+                if minimal_guards(d.guards) == [lt] and (d.rhs - Rat.atom(name)).equals(Rat.const(1)):
                     M = name
         ob("R-FORMULA", "mk_score", "one counter is incremented exactly when the later value is larger, one exactly when it is smaller",
            P is not None and M is not None and P != M,
